@@ -120,9 +120,30 @@ func (fs *flowState) follow(v ssa.Value, depth int) {
 				fs.sinks["field "+fieldSinkName(a)] = true
 			case *ssa.IndexAddr:
 				name := "elem " + typeKey(a.X.Type())
+				fromField := false
 				if u, ok := a.X.(*ssa.UnOp); ok && u.Op == token.MUL {
 					if fa, ok := u.X.(*ssa.FieldAddr); ok {
 						name = "elem " + fieldSinkName(fa) + "[]"
+						fromField = true
+					}
+				}
+				if !fromField && depth < 6 {
+					// an element of a local slice (insts[i] = inst): the object goes where the slice
+					// goes — returned to the caller, stored into block.Insts …
+					sub := &flowState{c: fs.c, seen: map[ssa.Value]bool{}, sinks: sinkSet{}}
+					sub.follow(a.X, depth+1)
+					carried := false
+					for sk := range sub.sinks {
+						if strings.HasPrefix(sk, "field ") {
+							fs.sinks["elem "+strings.TrimPrefix(sk, "field ")+"[]"] = true
+							carried = true
+						} else if strings.HasPrefix(sk, "elem ") || strings.HasPrefix(sk, "map ") {
+							fs.sinks[sk] = true
+							carried = true
+						}
+					}
+					if carried {
+						continue
 					}
 				}
 				fs.sinks[name] = true
@@ -355,6 +376,31 @@ func ruleTODO(c *Ctx) []Obligation {
 			return true
 		})
 		if fillsBlocks {
+			return
+		}
+		// a placeholder is a block that goes into a blockaddress constant; a block that the
+		// function builds for its caller to list (newBlock → f.Blocks[i]) is not one
+		intoBlockAddress := false
+		ast.Inspect(fd.Body, func(nd ast.Node) bool {
+			switch x := nd.(type) {
+			case *ast.CallExpr:
+				if f := calleeOf(info, x); f != nil && f.Pkg() != nil && f.Pkg().Path() == pkgCONS && f.Name() == "NewBlockAddress" {
+					intoBlockAddress = true
+				}
+			case *ast.CompositeLit:
+				if typeKey(info.TypeOf(x)) == "ir/constant.BlockAddress" {
+					intoBlockAddress = true
+				}
+			case *ast.AssignStmt:
+				for _, l := range x.Lhs {
+					if se, ok := unparen(l).(*ast.SelectorExpr); ok && se.Sel.Name == "Block" && strings.HasSuffix(typeKey(info.TypeOf(se.X)), "constant.BlockAddress") {
+						intoBlockAddress = true
+					}
+				}
+			}
+			return true
+		})
+		if !intoBlockAddress {
 			return
 		}
 		o := Obligation{Key: funcKey(fn) + " queues its placeholder block", Pos: c.pos(placeholder.Pos()), Verdict: VIOL,
@@ -654,6 +700,7 @@ func rulePHASE(c *Ctx) []Obligation {
 		name         string
 		fn           *types.Func
 		pos          token.Pos
+		ord          int
 		fills, looks map[string]bool
 	}
 	var steps []*step
@@ -666,7 +713,7 @@ func rulePHASE(c *Ctx) []Obligation {
 		if sf == nil {
 			continue
 		}
-		s := &step{name: f.Name(), fn: f, pos: ref.pos, fills: map[string]bool{}, looks: map[string]bool{}}
+		s := &step{name: f.Name(), fn: f, pos: ref.pos, ord: ref.ord, fills: map[string]bool{}, looks: map[string]bool{}}
 		order, _ := e.reach([]*ssa.Function{sf})
 		for _, g := range order {
 			for m := range lookups[g] {
@@ -690,7 +737,7 @@ func rulePHASE(c *Ctx) []Obligation {
 	if drainPos.IsValid() {
 		o := Obligation{Key: "no placeholder is queued after the work-list drain", Pos: c.pos(drainPos), Verdict: OK, Detail: "every step that can append to generator.todo precedes the drain"}
 		for _, ref := range phaseRefs {
-			if ref.pos <= drainPos {
+			if do, _ := c.memo["drainOrd"].(int); ref.ord <= do {
 				continue
 			}
 			func() bool {
@@ -740,7 +787,7 @@ func rulePHASE(c *Ctx) []Obligation {
 		case lastFill == nil:
 			o.Verdict, o.Pos = VIOL, c.pos(firstLook.pos)
 			o.Detail = fmt.Sprintf("%s looks up %s but no step of translate fills it for all definitions", firstLook.name, m)
-		case firstLook.pos <= lastFill.pos && firstLook != lastFill:
+		case firstLook.ord <= lastFill.ord && firstLook != lastFill:
 			o.Verdict, o.Pos = VIOL, c.pos(firstLook.pos)
 			o.Detail = fmt.Sprintf("%s resolves uses in %s before %s has created all scaffolds: forward references fail or bind to nothing", firstLook.name, m, lastFill.name)
 		case firstLook == lastFill:
@@ -1234,7 +1281,8 @@ func ruleIDXONCE(c *Ctx) []Obligation {
 // method value / function value placed in a table of phases that is run in order.
 type phaseRef struct {
 	fn  *types.Func
-	pos token.Pos
+	pos token.Pos // position in translate (of the driver call, for steps of a nested driver)
+	ord int       // execution order: 2·k for the k-th step; the drain loop gets an odd number when it sits between steps
 }
 
 // translatePhases lists the functions of package asm that translate refers to, in source
@@ -1248,26 +1296,66 @@ func (c *Ctx) translatePhases() (refs []phaseRef, drain token.Pos, drainFn *ast.
 		return nil, token.NoPos, nil, nil
 	}
 	info := c.pkg(pkgASM).TypesInfo
-	pm := buildParents(tfd.Body)
-	ast.Inspect(tfd.Body, func(n ast.Node) bool {
-		switch n := n.(type) {
-		case *ast.CallExpr:
-			if f := calleeOf(info, n); f != nil && f.Pkg() != nil && f.Pkg().Path() == pkgASM {
-				refs = append(refs, phaseRef{f, n.Pos()})
-			}
-		case *ast.SelectorExpr:
-			if sel, ok := info.Selections[n]; ok && sel.Kind() == types.MethodVal {
-				if call, isCall := pm[n].(*ast.CallExpr); isCall && call.Fun == ast.Expr(n) {
-					return true // counted as a call
+	// references to functions of the package in a body, in source order
+	refsIn := func(fd *ast.FuncDecl) []phaseRef {
+		var out []phaseRef
+		pm := buildParents(fd.Body)
+		ast.Inspect(fd.Body, func(n ast.Node) bool {
+			switch n := n.(type) {
+			case *ast.CallExpr:
+				if f := calleeOf(info, n); f != nil && f.Pkg() != nil && f.Pkg().Path() == pkgASM {
+					out = append(out, phaseRef{fn: f, pos: n.Pos()})
 				}
-				if f, ok := sel.Obj().(*types.Func); ok && f.Pkg() != nil && f.Pkg().Path() == pkgASM {
-					refs = append(refs, phaseRef{f, n.Pos()})
+			case *ast.SelectorExpr:
+				if sel, ok := info.Selections[n]; ok && sel.Kind() == types.MethodVal {
+					if call, isCall := pm[n].(*ast.CallExpr); isCall && call.Fun == ast.Expr(n) {
+						return true // counted as a call
+					}
+					if f, ok := sel.Obj().(*types.Func); ok && f.Pkg() != nil && f.Pkg().Path() == pkgASM {
+						out = append(out, phaseRef{fn: f, pos: n.Pos()})
+					}
 				}
 			}
+			return true
+		})
+		sort.Slice(out, func(i, j int) bool { return out[i].pos < out[j].pos })
+		return out
+	}
+	// a driver: a function that runs at least two argument-less steps on its receiver and has no
+	// loop over an index of definitions of its own (translate split into resolveTypes(),
+	// resolveTopLevelEntities() …): its steps are listed in place of the driver
+	isDriver := func(fd *ast.FuncDecl) bool {
+		if fd == nil || fd.Body == nil {
+			return false
 		}
-		return true
-	})
-	sort.Slice(refs, func(i, j int) bool { return refs[i].pos < refs[j].pos })
+		steps := 0
+		loopsOverIndex := false
+		ast.Inspect(fd.Body, func(n ast.Node) bool {
+			switch x := n.(type) {
+			case *ast.RangeStmt:
+				if m := mapFieldName(info, x.X); strings.HasPrefix(m, "oldIndex.") || strings.HasPrefix(m, "newIndex.") {
+					loopsOverIndex = true
+				}
+			case *ast.CallExpr:
+				if f := calleeOf(info, x); f != nil && f.Pkg() != nil && f.Pkg().Path() == pkgASM && len(x.Args) == 0 {
+					if sig := f.Type().(*types.Signature); sig.Recv() != nil {
+						steps++
+					}
+				}
+			case *ast.SelectorExpr:
+				// a table of steps: method values
+				if sel, ok := info.Selections[x]; ok && sel.Kind() == types.MethodVal {
+					if f, ok := sel.Obj().(*types.Func); ok && f.Pkg() != nil && f.Pkg().Path() == pkgASM {
+						if sig := f.Type().(*types.Signature); sig.Params().Len() == 0 {
+							steps++
+						}
+					}
+				}
+			}
+			return true
+		})
+		return steps >= 4 && !loopsOverIndex // each call is counted twice (call + selector)
+	}
 	hasDrain := func(fd *ast.FuncDecl) *ast.RangeStmt {
 		for _, st := range fd.Body.List {
 			if rs, ok := st.(*ast.RangeStmt); ok && mapFieldName(info, rs.X) == "generator.todo" {
@@ -1276,15 +1364,56 @@ func (c *Ctx) translatePhases() (refs []phaseRef, drain token.Pos, drainFn *ast.
 		}
 		return nil
 	}
-	if rs := hasDrain(tfd); rs != nil {
-		return refs, rs.Pos(), tfd, rs
-	}
-	for _, r := range refs {
-		if fd := c.funcDecl(r.fn); fd != nil && fd.Body != nil {
-			if rs := hasDrain(fd); rs != nil {
-				return refs, r.pos, fd, rs
+	drainOrd := -1
+	var walk func(fd *ast.FuncDecl, depth int, callPos token.Pos)
+	seen := map[*ast.FuncDecl]bool{}
+	walk = func(fd *ast.FuncDecl, depth int, callPos token.Pos) {
+		if seen[fd] {
+			return
+		}
+		seen[fd] = true
+		rs := hasDrain(fd)
+		for _, r := range refsIn(fd) {
+			if rs != nil && drainLoop == nil && r.pos > rs.Pos() {
+				// the drain loop sits between two steps of this driver
+				drainLoop, drainFn, drain = rs, fd, rs.Pos()
+				if depth > 0 {
+					drain = callPos
+				}
+				drainOrd = 2*len(refs) - 1
+			}
+			rfd := c.funcDecl(r.fn)
+			if depth < 3 && rfd != fd && isDriver(rfd) {
+				walk(rfd, depth+1, func() token.Pos {
+					if depth == 0 {
+						return r.pos
+					}
+					return callPos
+				}())
+				continue
+			}
+			p := r.pos
+			if depth > 0 {
+				p = callPos
+			}
+			refs = append(refs, phaseRef{fn: r.fn, pos: p, ord: 2 * len(refs)})
+			// a leaf step that is the drain (fixBlockAddressConsts)
+			if drainLoop == nil && rfd != nil && rfd.Body != nil {
+				if lrs := hasDrain(rfd); lrs != nil {
+					drainLoop, drainFn, drain = lrs, rfd, p
+					drainOrd = 2 * (len(refs) - 1)
+				}
 			}
 		}
+		if rs != nil && drainLoop == nil {
+			drainLoop, drainFn, drain = rs, fd, rs.Pos()
+			if depth > 0 {
+				drain = callPos
+			}
+			drainOrd = 2*len(refs) - 1
+		}
 	}
-	return refs, token.NoPos, nil, nil
+	walk(tfd, 0, token.NoPos)
+	c.memo["drainOrd"] = drainOrd
+	return refs, drain, drainFn, drainLoop
 }
